@@ -8,6 +8,7 @@
 // case lines (hex, "-" = empty):
 //
 //	C16|kg|set|skSeed|skPrf|pkSeed|tag        KeyGen with the three seeds on the tape  -> hex(SecretKey.Encode())
+//	C16|tk|set|T/N|id|pk|msg|sig|tag          the key's own verifier (slhdsa.NewVerifier, no keyset wrapper) -> ok | rej | badkey
 //	C16|sg|set|sk|msg|ctx|addrnd|tag          Sign (addrnd on the tape) / SignDeterministic (addrnd "d") -> hex(sig) | err
 //	C16|vf|set|pk|msg|ctx|sig|tag             Verify -> ok | rej | badkey
 //	C16|ts|set|T/N|id|sk|msg|addrnd|tag       Tink signer from a keyset handle -> hex(prefix‖sig) | err
@@ -26,6 +27,7 @@ import (
 	"strings"
 
 	"github.com/tink-crypto/tink-go/v2/insecuresecretdataaccess"
+	"github.com/tink-crypto/tink-go/v2/internal/internalapi"
 	islh "github.com/tink-crypto/tink-go/v2/internal/signature/slhdsa"
 	"github.com/tink-crypto/tink-go/v2/keyset"
 	"github.com/tink-crypto/tink-go/v2/secretdata"
@@ -206,6 +208,23 @@ func tinkVerify(p *pset, v string, id uint32, pk, msg, sig []byte) string {
 	return res
 }
 
+// keyVerify: the verifier of the key itself, which has to check the output prefix on its own (the
+// keyset wrapper only hands it signatures that already start with the prefix)
+func keyVerify(p *pset, v string, id uint32, pk, msg, sig []byte) string {
+	key, err := tslh.NewPublicKey(pk, idReq(v, id), tinkParams(p, v))
+	if err != nil {
+		return "badkey"
+	}
+	vf, err := tslh.NewVerifier(key, internalapi.Token{})
+	if err != nil {
+		return "badkey"
+	}
+	if vf.Verify(sig, msg) == nil {
+		return "ok"
+	}
+	return "rej"
+}
+
 func sigOut(sig []byte, ok bool) string {
 	if !ok {
 		return "err"
@@ -231,6 +250,9 @@ func run(in string) string {
 	case "tv":
 		id, _ := strconv.ParseUint(f[4], 10, 32)
 		return tinkVerify(p, f[3], uint32(id), hx.UH(f[5]), hx.UH(f[6]), hx.UH(f[7]))
+	case "tk":
+		id, _ := strconv.ParseUint(f[4], 10, 32)
+		return keyVerify(p, f[3], uint32(id), hx.UH(f[5]), hx.UH(f[6]), hx.UH(f[7]))
 	}
 	panic("bad case line")
 }
@@ -320,7 +342,7 @@ func check(in, obs string) string {
 			pl = 5
 		}
 		return selfCheck("tink sign", in, func(m, s []byte) string { return tinkVerify(p, f[3], uint32(id), pk, m, s) }, hx.UH(f[6]), hx.UH(obs), p.sigLen+pl)
-	case "vf", "tv":
+	case "vf", "tv", "tk":
 		if strings.HasPrefix(tag, "+") && obs != "ok" {
 			return "genuine signature not accepted: " + obs + " (" + tag + ")"
 		}
